@@ -12,7 +12,7 @@ import (
 //	0                       the seed
 //	prefixes                s[:k] for 0 <= k < len
 //	substitutions           byte i < H replaced by value set V (values equal to the original are still run: harmless duplicates of the seed)
-//	windows                 every 2-aligned 16-bit and 4-aligned 32-bit window < H overwritten with {0,1,len,len-1,len+1,max} big endian, and the 16-bit ones little endian too
+//	windows                 every 16-bit window (at every offset: length fields of TLVs and records sit at odd offsets as often as at even ones) and every 4-aligned 32-bit window < H overwritten with {0,1,len,len-1,len+1,max} big endian, and the 16-bit ones little endian too
 //	extensions              s ++ n filler bytes for (n, fill) in Ext
 type Neighbourhood struct {
 	H      int   // header region for substitutions and windows
@@ -44,7 +44,7 @@ func (n *Neighbourhood) counts(l int) (pre, sub, w16, w32, ext int) {
 	h := min(l, n.H)
 	pre = l
 	sub = h * len(n.Values)
-	w16 = (h / 2) * winVals * 2
+	w16 = max(h-1, 0) * winVals * 2
 	w32 = (h / 4) * winVals
 	ext = len(n.Ext)
 	return
@@ -105,7 +105,7 @@ func (n *Neighbourhood) Variant(s []byte, j int64) (out []byte, dev int) {
 	if j < int64(w16) {
 		k := int(j) % winVals
 		le := (int(j) / winVals) % 2
-		pos := (int(j) / (winVals * 2)) * 2
+		pos := int(j) / (winVals * 2)
 		out = exact(s)
 		v := uint16(winVal(k, len(s), 16))
 		if le == 1 {
